@@ -43,6 +43,10 @@ Definition step_wit (s : Z) (e : event) (t : tok) : Prop :=
   (exists view pers now z, t = TUser (UFStep s) view pers now (URet z) /\ skip_status z = true /\
                            r_run view = e_run e /\ r_ver view = e_ver e).
 
+(* the connector function was invoked with this event and returned nil *)
+Definition conn_wit (cid : N) (e : event) (t : tok) : Prop :=
+  exists pers now, t = TUser (UFConn cid) (conn_view e) pers now UOk.
+
 Definition wit (u : eunit) (e : event) (t : tok) : Prop :=
   match u with
   | EStep s _ _ => step_wit s e t
@@ -50,6 +54,7 @@ Definition wit (u : eunit) (e : event) (t : tok) : Prop :=
   | EHook st => hook_wit st e t
   | EDelete => delete_wit e t
   | ERetry => read_wit e t
+  | EConn cid _ _ => conn_wit cid e t
   | _ => False
   end.
 
@@ -329,15 +334,24 @@ Proof.
   apply (fr_bind _ okA); [apply (fr_ctl_do c _ okA)|]. intros x. destruct (fst x); [apply (fr_ret _ okA)|apply (fr_fail _ okA)].
 Qed.
 
+Lemma conn_handler_wit cid k e s s' : conn_handler cid k e s = (Ok tt, s') -> Wd (has_wit (EConn cid 0 0) e) s'.
+Proof.
+  unfold conn_handler. intros H. bind_step H E2 n s2. bind_step H E3 w s3. apply get_w_eq in E3 as [-> ->].
+  bind_step H E4 uu s4. apply emit_eq in E4 as [D4 T4].
+  destruct (Nat.ltb n k); [inversion H|]. apply ret_eq in H as [_ ->].
+  intros Hd. rewrite D4 in Hd. eexists. split; [rewrite T4, Hd; now left|]. cbn. eexists _, _. reflexivity.
+Qed.
+
 (* every consumer's handler: returning nil leaves a witness for the event *)
 Theorem unit_handler_wit inst u e s s' : unit_handler c inst u e s = (Ok tt, s') -> Wd (has_wit u e) s'.
 Proof.
-  unfold unit_handler. destruct u as [|st i n|st|st|hs| | |fid]; try (intros H; inversion H; fail).
+  unfold unit_handler. destruct u as [|st i n|st|st|hs| | |fid|cid ci cn]; try (intros H; inversion H; fail).
   - destruct (find_step c st) as [sc|]; [|intros H; inversion H]. apply step_handler_wit.
   - intros H. apply (step_handler_seen _ _ _ _ _ _ _ _ (fun v => fr_inserter_fn _ okA _ _ _ v) H).
   - apply hook_handler_wit.
   - apply delete_handler_wit.
   - apply retry_handler_wit.
+  - apply conn_handler_wit.
 Qed.
 
 
@@ -471,7 +485,7 @@ Qed.
 
 (* ---------- Recv ---------- *)
 Lemma topic_eqb_refl t : topic_eqb t t = true.
-Proof. destruct t; cbn; try reflexivity. apply Z.eqb_refl. Qed.
+Proof. destruct t; cbn; try reflexivity; [apply Z.eqb_refl|apply N.eqb_refl]. Qed.
 
 Lemma next_event_spec t l : forall i pos idx e, next_event t l i pos = Some (idx, e) ->
   (i <= idx)%nat /\ nth_error l (idx - i) = Some e /\ e_topic e = t /\ (pos <= idx)%nat /\
@@ -637,6 +651,7 @@ Proof.
   - intros [(r & pers & now & -> & _)|(r & -> & _)]; exact I.
   - intros (pv & r & -> & _). exact I.
   - intros (r & ->). exact I.
+  - intros (pers & now & ->). exact I.
 Qed.
 
 Definition not_api (t : tok) : Prop := match t with TApi _ => False | _ => True end.
@@ -690,7 +705,7 @@ Qed.
 
 Lemma run_op_DI w o T : DI w T -> DI (fst (run_op c w o)) (snd (run_op c w o) ++ T).
 Proof.
-  intros HD. destruct o as [fid start seed p|fid status p|run op ui p|d|inst u p|inst|inst fid valid|inst u|u pos|idx]; cbn [run_op].
+  intros HD. destruct o as [fid start seed p|fid status p|run op ui p|d|inst u p|inst|inst fid valid|inst u|u pos|idx|cid id cfid]; cbn [run_op].
   - apply run_api_DI; [apply (fr_api_trigger c _ okE)|exact HD].
   - apply run_api_DI; [apply (fr_api_callbacks c _ okE)|exact HD].
   - pose proof (run_api_DI w p (api_ctl c run op) T (fr_api_ctl c _ okE run op) HD) as G.
@@ -746,6 +761,8 @@ Proof.
   - (* a duplicated delivery appends to the log *)
     destruct (nth_error (w_log w) idx) as [e|]; cbn [fst snd app]; [|exact HD].
     eapply (DI_mono w); [eexists; reflexivity|reflexivity|intros x Hx; exact Hx|intros t Ht _; exact Ht|exact HD].
+  - (* an event of a connector's source appends to the log *)
+    cbn [fst snd app]. eapply (DI_mono w); [eexists; reflexivity|reflexivity|intros x Hx; exact Hx|intros t Ht _; exact Ht|exact HD].
 Qed.
 
 Lemma run_ops_from_DI ops : forall n w T,
